@@ -127,7 +127,10 @@ struct alignas(64) C {                                         // over-aligned, 
     C() = default;
     explicit C(uint64_t t) : tok{t} {}
 };
-struct D {};                                                   // empty
+struct D {                                                     // empty, trivially default constructible, callbacks
+    static void afterAssign(const D&, const Entity& e);       // (a type with callbacks but no constructor function)
+    static void beforeRemove(const D&, const Entity& e);
+};
 struct E { uint64_t tok[512]; };                               // large (4096), trivial
 struct F {                                                     // callbacks
     uint64_t tok = kDefaultTok('F');
@@ -142,6 +145,14 @@ struct F {                                                     // callbacks
         g_callbacks.push_back("remove:F:" + std::to_string(e.value));
     }
 };
+inline void D::afterAssign(const D&, const Entity& e) {
+    std::lock_guard<std::mutex> l{g_life_mutex};
+    g_callbacks.push_back("assign:D:" + std::to_string(e.value));
+}
+inline void D::beforeRemove(const D&, const Entity& e) {
+    std::lock_guard<std::mutex> l{g_life_mutex};
+    g_callbacks.push_back("remove:D:" + std::to_string(e.value));
+}
 struct H { uint64_t tok = kDefaultTok('H'); H() = default; explicit H(uint64_t t) : tok{t} {} };
 
 struct S : public TSharedComponentTag<S> {
